@@ -568,8 +568,12 @@ class Capsule(Primitive):
     def _create_mesh(self):
         log.debug("creating mesh for `Capsule` primitive")
 
+        # `sections` is the number of facets around the circle: use it
+        # for both the latitude and longitude counts of the capsule
         mesh = creation.capsule(
-            radius=self.primitive.radius, height=self.primitive.height
+            radius=self.primitive.radius,
+            height=self.primitive.height,
+            count=[self.primitive.sections, self.primitive.sections],
         )
         mesh.apply_transform(self.primitive.transform)
 
